@@ -170,6 +170,17 @@ Definition h_log_prob (d : dist) (a : tens) : tens :=
       let unbinded := unbind_dim1 am in
       let multi := zipWith cat_log_prob ds unbinded in
       sum_dim1 (T2 (stack_dim1 multi))
+  (* a rank-1 action [B] against [B,1] parameters broadcasts to [B,B]: entry (i,j) pairs row i's
+     distribution with row j's action, and sum(dim=1) then adds up the whole batch *)
+  | DNormal loc sc, T1 av =>
+      if Nat.eqb (ncols loc) 1
+      then sum_independent_tensor
+             (T2 (zipWith (fun mrow srow => map (fun x => NormalLogPdf (nth 0 mrow dflt) (nth 0 srow dflt) x) av) loc sc))
+      else TErr
+  | DBern lg, T1 av =>
+      if Nat.eqb (ncols lg) 1
+      then sum_dim1 (T2 (map (fun lrow => map (fun x => BernLogP (nth 0 lrow dflt) x) av) lg))
+      else TErr
   | _, _ => TErr
   end.
 
@@ -227,15 +238,17 @@ Definition ed_init (sp : space) (squash_output : bool) : edist :=
   {| ed_space := sp; ed_squash := squash_output && is_box sp;
      ed_log_std := map (fun i => Var "log_std" 0 i) (seq 0 (flatdim sp)); ed_dist := None |}.
 
+Definition dist_of (sp : space) (log_std_row : list expr) (logits : list (list expr)) : dist :=
+  match sp with
+  | Box _ => let log_std := map (fun _ => log_std_row) logits in   (* log_std.expand_as(logits) *)
+             DNormal logits (map (map Exp) log_std)                (* Normal(loc=logits, scale=exp(log_std)) *)
+  | Discrete _ => DCat logits
+  | MultiDiscrete nv => DMulti (split_dim1 nv logits)              (* [Categorical(logits=s) for s in split(logits, nvec, dim=1)] *)
+  | MultiBinary _ => DBern logits
+  end.
+
 Definition get_distribution (ed : edist) (logits : list (list expr)) : tdist :=
-  let d := match ed_space ed with
-           | Box _ => let log_std := map (fun _ => ed_log_std ed) logits in   (* expand_as *)
-                      DNormal logits (map (map Exp) log_std)
-           | Discrete _ => DCat logits
-           | MultiDiscrete nv => DMulti (split_dim1 nv logits)
-           | MultiBinary _ => DBern logits
-           end in
-  {| td_dist := d; td_squash := ed_squash ed; td_sampled := None |}.
+  {| td_dist := dist_of (ed_space ed) (ed_log_std ed) logits; td_squash := ed_squash ed; td_sampled := None |}.
 
 (* apply_action_mask_discrete: torch.where(mask, logits, -1e8) *)
 Definition mask_discrete (logits mask : list (list expr)) : list (list expr) :=
@@ -328,6 +341,36 @@ Definition ppo_evaluate_actions (ac : actor) (logits : list (list expr)) (dr : d
       Some (ac', lp, ppo_entropy lp ent)
   end.
 
+(* learn(): minibatch actions go through batch_actions.squeeze() (minibatches have > 1 rows), which also
+   removes the component axis of one-component spaces; the repaired code puts that axis back for every
+   space but Discrete before evaluate_actions / action_log_prob *)
+Definition squeeze (t : tens) : tens :=
+  match t with
+  | T2 m => if Nat.eqb (ncols m) 1 then T1 (map (fun r => nth 0 r dflt) m) else T2 m
+  | other => other
+  end.
+Definition restore_axis (sp : space) (t : tens) : tens :=
+  match sp, t with
+  | Discrete _, _ => t
+  | _, T1 v => T2 (map (fun x => [x]) v)
+  | _, _ => t
+  end.
+Definition learn_actions (sp : space) (a : tens) : tens := restore_axis sp (squeeze a).
+Definition learn_actions_pinned (sp : space) (a : tens) : tens := squeeze a.
+
+Definition ppo_learn_evaluate (ac : actor) (logits : list (list expr)) (dr : draws) (stored : tens) :=
+  ppo_evaluate_actions ac logits dr (learn_actions (ed_space (ac_head ac)) stored).
+Definition ppo_learn_evaluate_pinned (ac : actor) (logits : list (list expr)) (dr : draws) (stored : tens) :=
+  ppo_evaluate_actions ac logits dr (learn_actions_pinned (ed_space (ac_head ac)) stored).
+
+(* IPPO._learn_individual: actor(batch_states) then actor.action_log_prob(batch_actions) *)
+Definition ippo_learn_evaluate (ac : actor) (logits : list (list expr)) (dr : draws) (stored : tens)
+  : option (actor * tens * option tens) :=
+  match actor_forward ac logits None dr with
+  | None => None
+  | Some (ac', _, _, ent) => Some (ac', action_log_prob ac' (learn_actions (ed_space (ac_head ac)) stored), ent)
+  end.
+
 (* ------------------------------------------------------------------ the definition (textbook), row by row *)
 Definition spec_logprob_row (sp : space) (squash : bool) (logits log_std action : list expr) : expr :=
   match sp with
@@ -392,3 +435,40 @@ Definition var_action (name : string) (sp : space) (B : nat) : tens :=
 
 Definition opt_mask (masked : bool) (name : string) (sp : space) (B : nat) : option (list (list expr)) :=
   if masked then Some (var_t2 name B (flatdim sp)) else None.
+
+(* ------------------------------------------------------------------ the definition lifted to a batch; shape guards *)
+Definition spec_logprob (sp : space) (squash : bool) (logits : list (list expr)) (log_std : list expr) (action : tens) : tens :=
+  T1 (zipWith (fun lrow arow => spec_logprob_row sp squash lrow log_std arow) logits (rows_of action)).
+
+Definition spec_entropy (sp : space) (logits : list (list expr)) (log_std : list expr) : tens :=
+  T1 (map (fun lrow => spec_entropy_row sp lrow log_std) logits).
+
+(* what masking must produce: every logit individually guarded by its own mask bit *)
+Definition masked_spec (logits mask : list (list expr)) : list (list expr) :=
+  zipWith (fun lr mr => zipWith (fun l m => MaskFill m l) lr mr) logits mask.
+
+Definition wf_rows (B D : nat) (t : list (list expr)) : Prop :=
+  length t = B /\ Forall (fun r => length r = D) t.
+
+Definition wf_action (sp : space) (B : nat) (a : tens) : Prop :=
+  match sp, a with
+  | Discrete _, T1 v => length v = B
+  | Discrete _, _ => False
+  | _, T2 m => wf_rows B (ncomp sp) m
+  | _, _ => False
+  end.
+
+Definition wf_draws (sp : space) (B : nat) (dr : draws) : Prop :=
+  match sp, dr with
+  | MultiDiscrete nv, DrMany cols => length cols = length nv /\ Forall (fun c => length c = B) cols
+  | MultiDiscrete _, DrOne _ => False
+  | _, DrOne t => wf_action sp B t
+  | _, DrMany _ => False
+  end.
+
+(* the squashed branch of log_prob reuses the cached sample iff this test succeeds *)
+Definition cache_hit (st : tdist) (action : tens) : bool :=
+  match td_sampled st with
+  | Some s => shape_eqb s action && tens_eqb (tmap Tanh s) action
+  | None => false
+  end.
